@@ -67,6 +67,11 @@ Proof.
 Qed.
 Print Assumptions C08_positive_bounded.
 
+(* the counter of the loop below is the one in the source: one more per failed poll, zero after a successful one, nothing else *)
+Theorem C08_counter_updates : retryCountUpdates = ["retryCount++"; "retryCount = 0"]%string.
+Proof. reflexivity. Qed.
+Print Assumptions C08_counter_updates.
+
 (* the poll loop: the i-th failing list call sleeps with the number of
    consecutive failures since the last success; a success resets to 0 *)
 Theorem C08_loop : forall outcomes, Z.of_nat (length outcomes) < 2^64 ->
